@@ -30,7 +30,19 @@ CFG_FULL = {
 CFG_REDUCED = {"values": (3,), "templates": ("mul2", "inc"), "unreg": True}
 CFG_MIX = {"values": (3,), "index_values": (1,), "templates": ("mul2", "total", "dyn", "add"),
            "setc": True, "funs": ("F1",), "knobs": ("K1",)}
-ALPHABETS = {"full": CFG_FULL, "reduced": CFG_REDUCED, "mix": CFG_MIX}
+CFG_DEEP = {"values": (3,), "templates": ("mul2", "size"), "unreg": True}
+# freeze_tree / unfreeze_tree as ordinary operations over a tiny alphabet (a change that treats frozen updates specially)
+CFG_FREEZE = {"values": (3, 5), "templates": ("mul2",), "leaves_n": 3, "extra": [("freeze",), ("unfreeze",)]}
+ALPHABETS = {"full": CFG_FULL, "reduced": CFG_REDUCED, "mix": CFG_MIX, "deep": CFG_DEEP, "freeze": CFG_FREEZE}
+
+
+def alphabet_for(world, name):
+    cfg = dict(ALPHABETS[name])
+    n = cfg.pop("leaves_n", None)
+    if n:
+        cfg["leaves"] = world["leaves"][:n]
+        cfg["sources"] = world["leaves"][:n]
+    return cfg
 
 
 class StartOrder:
@@ -397,15 +409,18 @@ def plan(tier, seed):
     seeds = common.seeds_for(tier, seed, quick=(0, 1), thorough=(0, 1, 2, 3))
     jobs = []
     if tier == "quick":
-        runs = [("W-nest", "full", 2), ("W-nest-4", "reduced", 3), ("W-mix", "mix", 2)]
+        runs = [("W-nest", "full", 2), ("W-nest-4", "reduced", 3), ("W-mix", "mix", 2), ("W-deep", "deep", 3), ("W-flat", "freeze", 5)]
         cyc_depth = 3
         scopes = [(1, 1), (2, 2), (3, 3), (4, 3)]
     else:
-        runs = [("W-nest", "full", 3), ("W-nest-4", "reduced", 4), ("W-mix", "mix", 3)]
+        runs = [("W-nest", "full", 3), ("W-nest-4", "reduced", 4), ("W-mix", "mix", 3), ("W-deep", "deep", 4), ("W-flat", "freeze", 7),
+                ("W-nest-4", "freeze", 6)]
         cyc_depth = 4
         scopes = [(1, 1), (2, 2), (3, 3), (4, 4)]
     jobs.append({"name": "sorter", "mode": "compiled", "hashseed": 0, "nproc": 8, "timeout": 3000,
                  "args": {"kind": "sorter", "scopes": scopes}})
+    jobs.append({"name": "deep-graphs", "mode": "compiled", "hashseed": seeds[-1], "nproc": 4, "timeout": 3000,
+                 "args": {"kind": "deepgraphs", "sizes": (50, 900, 1500, 4000) if tier == "quick" else (50, 900, 1100, 1500, 4000, 12000)}})
     for hs in seeds:
         for wname, alpha, depth in runs:
             jobs.append({"name": f"bfs:{wname}:{alpha}:d{depth}:seed{hs}", "mode": "compiled", "hashseed": hs,
@@ -427,10 +442,90 @@ def run_job(job):
     a = job["args"]
     if a["kind"] == "sorter":
         return run_sorter(job)
+    if a["kind"] == "deepgraphs":
+        return run_deepgraphs(job)
     if a["kind"] == "cyclic":
         return common.run_bfs(CyclicSystem(CYC_WORLD, CFG_CYC, common.config_info(job)), job)
-    s = System(WORLDS[a["world"]], ALPHABETS[a["alphabet"]], common.config_info(job))
+    s = System(WORLDS[a["world"]], alphabet_for(WORLDS[a["world"]], a["alphabet"]), common.config_info(job))
     return common.run_bfs(s, job)
+
+
+def _deep_case(case):
+    """chain v[i+1] = v[i] + 1 of n tasks with side branches hanging off early links (registered before the next link) and a second,
+    shallow start task; ONE assignment at the head: every task runs exactly once, producers first, nothing else is written."""
+    import xdeps
+    from ..world import LogDict, Trace
+    n, order, branches = case
+    tr = Trace()
+    data = LogDict({f"v{i}": 0 for i in range(n + 1)}, ("s",), tr)
+    for b in range(branches):
+        dict.__setitem__(data, f"leaf{b}", 0)
+        dict.__setitem__(data, f"leaf{b}b", 0)
+    dict.__setitem__(data, "side", 0)
+    tr2 = tr
+    m = xdeps.Manager()
+    s = m.ref(data, "s")
+    idx = range(n) if order == "producer-first" else range(n - 1, -1, -1)
+    for i in idx:
+        s[f"v{i + 1}"] = s[f"v{i}"] + 1
+        if i < branches:
+            s[f"leaf{i}"] = s[f"v{i + 1}"] * 2          # finished long before the deep part of the chain
+            s[f"leaf{i}b"] = s[f"leaf{i}"] + s["v0"]      # a second start task that is shallow
+    s["side"] = s["v0"] * 3
+    tr2.reset()
+    try:
+        s["v0"] = 10
+    except RecursionError:
+        return case, "RecursionError during the update", 0
+    except Exception as e:  # noqa
+        return case, f"{type(e).__name__}: {e}", 0
+    writes = [p[-1][1] for p, _ in tr2.events]
+    counts = {}
+    for wkey in writes:
+        counts[wkey] = counts.get(wkey, 0) + 1
+    expected = {"v0"} | {f"v{i + 1}" for i in range(n)} | {f"leaf{i}" for i in range(branches)} | {f"leaf{i}b" for i in range(branches)} | {"side"}
+    twice = sorted(k for k, c in counts.items() if c > 1)
+    if twice:
+        return case, f"location(s) written more than once in one update (task ran twice): {twice[:5]}", len(writes)
+    if set(counts) != expected:
+        miss = sorted(expected - set(counts))[:5]
+        extra = sorted(set(counts) - expected)[:5]
+        return case, f"tasks that ran != downstream set: missing {miss} unexpected {extra}", len(writes)
+    pos = {k: i for i, k in enumerate(writes)}
+    for i in range(n):
+        if pos[f"v{i + 1}"] < pos[f"v{i}"]:
+            return case, f"v{i + 1} was computed before v{i}", len(writes)
+    for i in range(branches):
+        if pos[f"leaf{i}"] < pos[f"v{i + 1}"] or pos[f"leaf{i}b"] < pos[f"leaf{i}"]:
+            return case, f"branch {i} ran before its producer", len(writes)
+    if data[f"v{n}"] != 10 + n:
+        return case, f"v{n} = {data[f'v{n}']}, expected {10 + n}", len(writes)
+    return case, None, len(writes)
+
+
+def run_deepgraphs(job):
+    import multiprocessing as mp
+    import sys
+    import xdeps  # noqa
+    t0 = time.time()
+    cases = [(n, order, br) for n in job["args"]["sizes"] for order in ("producer-first", "consumer-first") for br in (0, 3)]
+    cases.sort(key=lambda c: -c[0])
+    pool = mp.get_context("fork").Pool(job.get("nproc", 1))
+    issues = []
+    ev = 0
+    writes = 0
+    for case, err, nw in pool.imap_unordered(_deep_case, cases, chunksize=1):
+        ev += 1
+        writes += nw
+        if err:
+            issues.append({"kind": "violation", "property": "C02", "finding": None, "config": common.config_info(job),
+                           "what": f"deep chain of {case[0]} tasks ({case[1]}, {case[2]} side branches): {err}",
+                           "program": [f"v[i+1] = v[i] + 1 for i < {case[0]} ({case[1]}); {case[2]} side branches on early links; v0 = 10"],
+                           "case": {"deep": list(case)}})
+    pool.close()
+    pool.join()
+    return {"kind": "deepgraphs", "evaluations": ev, "writes_observed": writes, "issues": issues, "wall_s": time.time() - t0,
+            "sizes": list(job["args"]["sizes"])}
 
 
 def finish(plan_, results):
@@ -441,6 +536,11 @@ def finish(plan_, results):
                              "scopes_nodes_maxstartlen": r["scopes"], "distinct_results_seen": r["distinct_results"],
                              "wall_s": round(r["wall_s"], 2),
                              "rule": "all directed graphs (self-loops included) on n labelled nodes x every ordered start list up to the stated length"}
+            issues.extend(r["issues"])
+        if r.get("kind") == "deepgraphs":
+            cov["deep_graphs"] = {"cases": r["evaluations"], "sizes": r["sizes"], "task_runs_observed": r["writes_observed"],
+                                  "rule": "chain length x definition order x side branches; one assignment at the head; every task exactly "
+                                          "once, producers first, nothing else written", "wall_s": round(r["wall_s"], 2)}
             issues.extend(r["issues"])
     st = cov["stats"]
     cov["schedules_executed"] = st.get("schedules", 0)
@@ -468,6 +568,9 @@ def replay(issue):
         return {"still_fails": bool(err), "what": err or "ok"}
     if case.get("timeout"):
         return {"still_fails": False, "what": "timeout cases are re-run by the check itself"}
+    if "deep" in case:
+        c, err, _ = _deep_case(tuple(case["deep"]))
+        return {"still_fails": bool(err), "what": err or "ok"}
     world = case["world"]
     if world == "W-cyc":
         import ast
